@@ -14,6 +14,7 @@ type Lexer struct {
 	ch           byte // current char under examination
 	inside       bool
 	curLine      int
+	verif        verifState
 }
 
 // New Lexer from the input string
@@ -25,6 +26,7 @@ func New(input string) *Lexer {
 
 // NextToken from the source input
 func (l *Lexer) NextToken() token.Token {
+	l.verifTick()
 	if l.inside {
 		return l.nextInsideToken()
 	}
